@@ -66,7 +66,7 @@ var substatements = map[string]map[string]card{
 	"output":   withData(map[string]card{"grouping": c0n, "typedef": c0n}, dataDefs...),
 	"notification": withData(map[string]card{"description": c01, "grouping": c0n, "if-feature": c0n, "reference": c01, "status": c01,
 		"typedef": c0n}, dataDefs...),
-	"augment": withData(map[string]card{"case": c0n, "description": c01, "if-feature": c0n, "reference": c01, "status": c01, "when": c01}, dataDefs...),
+	"augment":   withData(map[string]card{"case": c0n, "description": c01, "if-feature": c0n, "reference": c01, "status": c01, "when": c01}, dataDefs...),
 	"identity":  {"base": c01, "description": c01, "reference": c01, "status": c01},
 	"extension": {"argument": c01, "description": c01, "reference": c01, "status": c01},
 	"argument":  {"yin-element": c01},
